@@ -128,6 +128,9 @@ def load_table():
             if not line or line.startswith('#'):
                 continue
             d = json.loads(line)
+            if d.get('key', '').startswith('creation:'):
+                sites[d['key']] = d
+                continue
             if d['kind'] == 'sink':
                 sinks[(d['effect'], d['sink'])] = d
             elif d['kind'] == 'site':
